@@ -11,12 +11,17 @@ reader is covered by Props/C14Gcno.lean (`C14_gcno_*`, `C14_gcda_*`, `C14_trunca
 byte strings `Gcno::compute` ends in a value, an error or the known overflow crash, never out of
 fuel (`C14_gcno_bytes_never_crash`, `C14_gcno_bytes_terminate`); a truncated gcda gives an error or
 the state of a prefix of the complete records; record streams and block tables are linear in the
-input. What is not covered by a theorem: the two allocation findings (a BRDA branch number / a
-JaCoCo cb,mb counter is an allocation size) and the running time of the cycle search.
+input. Time and stack: Props/C14GcnoCost.lean – the calls of `propagate_counts` are linear in the
+input, but its recursion depth reaches the number of blocks (finding
+C14-gcno-recursion-depth-stack-overflow on the real stack) and the cycle search enumerates
+exponentially many circuits (`C14_gcno_time_linear_false`; finding
+C14-gcno-cycle-search-exponential). What is not covered by a theorem: the two allocation findings
+(a BRDA branch number / a JaCoCo cb,mb counter is an allocation size).
 -/
 import GrcovModel.Lemmas.Lcov
 import GrcovModel.Props.C10
 import GrcovModel.Props.C14Gcno
+import GrcovModel.Props.C14GcnoCost
 namespace Grcov.Props.C14
 open Grcov Grcov.Lcov
 
